@@ -35,13 +35,13 @@ CLAIMS = {
          "Proved: topic actor remove_subscription removes exactly the named entry, delete clears the set, sets deleted and is idempotent, attach never overwrites; subscription delete empties backlog and leases and sets deleted, after which post/pull/ack/modify are no-ops.",
          "The DeleteSubscription / DeleteTopic handlers (async, whole bodies, B6) are under contract: OK means the resource the name denotes was asked to delete itself and answered OK. NOT covered: order of effects across the two actors, liveness of the Weak<Topic>, that the Weak<Topic> is dead exactly when the topic is deleted (the mapping itself is under contract in B6: live topic -> its name, dead -> the deleted marker), re-creation not re-attaching (call-graph fact)."),
  "C13": ("proof with trusted seams",
-         "Proved: Paging::new normalises the size (0 -> 20, > 1000 -> 1000), next offset = offset + page length and none for an empty page, negative size is INVALID_ARGUMENT, an issued token decodes to its offset, anything else is INVALID_ARGUMENT or some offset; walk lemma (unbounded list length): following offsets from the first page yields the list exactly once in order with pages <= size, and a hostile offset yields a valid (possibly empty) page.",
+         "Proved: Paging::new normalises the size (0 -> 20, > 1000 -> 1000), next offset = offset + page length and none for an empty page, negative size is INVALID_ARGUMENT, an issued token decodes to its offset, anything else is INVALID_ARGUMENT or some offset; walk lemma (unbounded list length): following offsets from the first page yields the list exactly once in order with pages <= size, and a hostile offset yields a valid (possibly empty) page; the ListTopics / ListTopicSubscriptions handlers pass the effective size and the token's offset on and answer with the names in order and a next_page_token exactly when a further offset is reported.",
          "Assumed contracts (listed in trusted_base): PageToken::encode/try_decode (base64 + to_ne_bytes; Verus cannot specify const-generic array lengths; a complete Kani harness ran out of memory at 30 GB, so the codec is swept by the bounded stand-in `tokens` on the mounted source file), <[T]>::sort_unstable. The sort + skip/take/collect tails of list_topics and list_subscriptions_in_project are under contract (window == page_items); the ListTopics and ListTopicSubscriptions handlers (async, whole bodies, B2) are under contract (effective size and token offset passed on, names in order, next_page_token exactly when the topic reports a further offset); the filter/collect heads of the list bodies and the window of TopicActor::list_subscriptions use the `cloned` adapter (no vstd spec) and are covered by the bounded stand-ins only; creation order = order of internal ids (C10)."),
  "C15": ("proof for the size bound (scoped for emptiness)",
-         "Proved: the batch of pull_messages has at most max_count messages (at most one when the 16-bit limit is 0), never more than the backlog, and is empty only when the backlog is (contract clause `count_ok`; the exact count incl. the `usize as u16` truncation of the backlog length is a loop-level obligation); conversion lemma over all i32 m >= 1: such a batch never exceeds m even where `m as u16` wraps; streaming limit: try_into::<u16> rejects out-of-range values with INVALID_ARGUMENT; pull returns empty iff the backlog is empty.",
+         "Proved: the batch of pull_messages has at most max_count messages (at most one when the 16-bit limit is 0), never more than the backlog, and is empty only when the backlog is (contract clause `count_ok`; the exact count incl. the `usize as u16` truncation of the backlog length is a loop-level obligation); conversion lemma over all i32 m >= 1: such a batch never exceeds m even where `m as u16` wraps; streaming limit: try_into::<u16> rejects out-of-range values with INVALID_ARGUMENT; pull returns empty iff the backlog is empty; on the unary path the `max_messages as u16` call site, the helper pull_messages and the handle's pull_messages are under contract (at most max_messages messages for every i32 >= 1; the limit reaches the actor's mailbox unchanged); inside the wait loop an empty batch is answered at once only when return_immediately is set (region pull_empty_rule).",
          "NOT covered by contracts: the unary wait loop / 5-minute timer (select!) and the wake-up of further waiting consumers when a full batch leaves messages behind (Notify; gRPC scenarios `pull_limits`, `two_waiters`, `stream_limits` stand in); the StreamingPull loop body (try_stream! macro). The unary path from the request to the subscription handle is under contract (B5): the helper pull_messages (async fn, verified as such) returns one ReceivedMessage per message handed out, and the `request.max_messages as u16` call site of the pull handler (lifted region) yields at most max_messages messages for every i32 >= 1; the handle method itself is a trusted stand-in carrying the actor's proved count clause (A-GLUE)."),
  "C17": ("proof per parser (scoped)",
-         "Proved: every parser under contract is total and panic-free (no unwrap, slicing through checked get, all integer arithmetic overflow-checked), returns INVALID_ARGUMENT exactly on the malformed class; streaming control-message validation rejects inconsistent messages before any subscription call.",
+         "Proved: every parser under contract is total and panic-free (no unwrap, slicing through checked get, all integer arithmetic overflow-checked), returns INVALID_ARGUMENT exactly on the malformed class; streaming control-message validation rejects inconsistent messages before any subscription call; the Publish / CreateTopic / CreateSubscription / GetTopic / GetSubscription / Delete* / Acknowledge / ModifyAckDeadline / ListTopics / ListTopicSubscriptions handlers and the in-stream control handler answer INVALID_ARGUMENT for every malformed field they parse (names, ack ids, seconds, page size, push endpoint), proved on the whole async bodies.",
          "NOT covered: 'changes no state / connection survives' at RPC level, panics inside tonic/prost; parse_push_config is under contract (B6: INVALID_ARGUMENT exactly when the trimmed endpoint does not start with \"http\"); parse_project_id and its fn-local `parse` are under contract (B3: Ok exactly on the prefix \"projects/\", the id is the rest of the text); AckId::parse is verified against an assumed contract of std's str::parse::<u64> (FromStr declared to Verus; no longer an assumed contract of its own)."),
  "C18": ("proof",
          "Proved on the byte view of &str (after fix 0473433), both directions: try_parse(s) = Some(n) implies s = \"projects/\" p \"/topics/\" rest with '/' not in p, p non-empty, n.id = rest trimmed of '/' and non-empty; and every string of that form is accepted (so the canonical echo of an accepted name is accepted); likewise /subscriptions/.",
